@@ -46,6 +46,9 @@ GhostInit(S) ==
    pairs |-> EmptyFn,    \* key -> [put, del, putDone, delDone, valid]: `put k` then `delete k` by one thread, nobody else writing k (C11)
    delold |-> EmptyFn,   \* delete operation -> values of its key that were written before the delete was issued (same thread, or by calls that had returned)
    deadv |-> EmptyFn,    \* key -> values that an acknowledged delete has removed for good (C11: they were submitted before it)
+   desync |-> {},        \* actors whose model-inferred locals cannot be trusted until they start their next command / operation
+   smp |-> {},           \* ids in the sample the code logged last (entries kept from it carry the estimate they were sampled with)
+   adm |-> [id |-> 0, w |-> 0],   \* the put the worker is admitting (set at A_Space, from the command it actually received)
    absent |-> {},        \* keys whose last writes are `put k ; delete k` by one thread: absent once everything is applied (C11)
    dead |-> {}]          \* background threads that died
 
@@ -150,6 +153,13 @@ GhostBegin(G, S, a, op) ==
 GhostNext(G, S, a, site, inp, S2, o) ==
   LET L == S.lc[a]
       G0 == [G EXCEPT !.lookups = IF site = "C_Get" THEN @ + 1 ELSE @,
+                      !.desync = LET base == IF site \in {"W_Recv", "C_Idle", "S_Tick", "R_Recv"} THEN @ \ {a} ELSE @
+                                 IN IF o.sync THEN base ELSE base \cup {a},
+                      !.adm = IF site = "A_Space" /\ a = "worker" THEN [id |-> L.id, w |-> L.w] ELSE @,
+                      !.smp = IF \E i \in DOMAIN o.ev : o.ev[i].e \in {"sample", "refill"}
+                              THEN LET j == CHOOSE i \in DOMAIN o.ev : o.ev[i].e \in {"sample", "refill"} /\ \A k \in DOMAIN o.ev : o.ev[k].e \in {"sample", "refill"} => i >= k
+                                   IN {o.ev[j].f[x] : x \in {y \in 3..Len(o.ev[j].f) : (y - 3) % 3 = 0}}
+                              ELSE IF site = "A_Space" THEN {} ELSE @,
                       !.shutSeen = @ \/ S2.shut,
                       !.shutDone = @ \/ (IsCaller(a) /\ o.next = "C_Idle" /\ o.op.op = "shutdown"),
                       !.pressure = @ \/ o.next = "A_Sample" \/ site = "A_Sample",
@@ -201,9 +211,14 @@ GhostNext(G, S, a, site, inp, S2, o) ==
                             !.rd3 = IF a \in DOMAIN @ THEN Without(@, a) ELSE @,
                             !.obs = IF a \in DOMAIN @ THEN Without(@, a) ELSE @] ELSE G7
       \* D2: running sum (clamped at 0) of weight updates applied to charged ids
-      G9 == IF site = "K_Update" /\ L.id \in DOMAIN S.kw
-            THEN [G8 EXCEPT !.credit = With(@, L.id, Max2(0, Get(@, L.id, 0) + (L.w - S.kw[L.id].w)))] ELSE G8
-      G10 == IF site = "K_DelUsed" THEN [G9 EXCEPT !.credit = Restrict(@, DOMAIN @ \ {L.vic.id})]
+      G9 == IF site = "K_Update"
+            THEN LET changed == {id \in DOMAIN S.kw \cap DOMAIN S2.kw : S.kw[id].w # S2.kw[id].w}   \* (observed, not predicted)
+                 IN [G8 EXCEPT !.credit = [id \in DOMAIN @ \cup changed |->
+                                             IF id \in changed THEN Max2(0, Get(@, id, 0) + (S2.kw[id].w - S.kw[id].w)) ELSE @[id]]]
+            ELSE G8
+      G10 == IF site = "K_DelUsed"
+             THEN \* the released id: the one that is charged nowhere any more and whose weight left the total in this step
+                  [G9 EXCEPT !.credit = Restrict(@, {id \in DOMAIN @ : id \in DOMAIN S2.kw \/ (id # L.vic.id /\ S2.used = S.used)})]
              ELSE IF site = "C_ShutClearPolicy" THEN [G9 EXCEPT !.credit = EmptyFn] ELSE G9
       \* D13: the worker registers an expiry in the index that the entry no longer has
       \* D13 / D14: an index update (the worker's after its store write, or a caller's after its in-place update) that no longer
@@ -248,6 +263,9 @@ GhostObs(G, S, a) ==
            due == x.ok /\ ~G.pressure /\ ~S.shut /\ (x.dl = NoExp \/ S.now < x.dl)
        IN Append(G.obs[a], [k |-> k, present |-> pres, val |-> e.val, exp |-> e.exp, soft |-> e.soft,
                             now |-> S.now, shut |-> S.shut, due |-> due, want |-> x.val, src |-> x.src, tainted |-> Get(G.taintK, k, "")])
+
+\* the specification's locals of actor a describe what the code is really doing in this step
+Sync(G, a, site, o) == o.sync /\ (a \notin G.desync \/ site \in {"W_Recv", "C_Idle", "S_Tick", "R_Recv"})
 
 -----------------------------------------------------------------------------
 (* C01: 0 <= total weight <= cache weight at every instant while running *)
@@ -308,7 +326,7 @@ J_C03(S, a, site, inp, S2, o, G, G2) ==
 
 J_C04(S, a, site, inp, S2, o, G, G2) ==
   LET L == S.lc[a] IN
-  IF a = "worker" /\ L.cmd.kind = "del" /\ o.next = "W_Recv" /\ site # "W_Recv" /\ L.cmd.ack \in DOMAIN S2.ack /\ S2.ack[L.cmd.ack].done
+  IF a = "worker" /\ Sync(G, a, site, o) /\ L.cmd.kind = "del" /\ o.next = "W_Recv" /\ site # "W_Recv" /\ L.cmd.ack \in DOMAIN S2.ack /\ S2.ack[L.cmd.ack].done
   THEN LET st == S2.ack[L.cmd.ack].st k == L.cmd.key IN
        (IF st = StAccepted /\ Present(S2, k) /\ ~S2.shut
         THEN <<V("C04", "violation", "", "delete acknowledged as accepted but the key is still in the store")>> ELSE <<>>)
@@ -348,7 +366,7 @@ EvTriples(f, from) == {[id |-> f[i], est |-> f[i + 1], w |-> f[i + 2]] :
                          i \in {j \in from..Len(f) : (j - from) % 3 = 0 /\ j + 2 <= Len(f)}}
 
 J_C06(S, a, site, inp, S2, o, G, G2) ==
-  IF a # "worker" THEN <<>>
+  IF a # "worker" \/ ~Sync(G, a, site, o) THEN <<>>
   ELSE LET L == S.lc[a] IN
     (IF site = "A_Space" /\ L.w > S.cfg.max /\ ~(o.next = "W_Recv" /\ L.cmd.ack \in DOMAIN S2.ack /\ S2.ack[L.cmd.ack].st = StRejTooHeavy
                                                  /\ S2.store = S.store /\ S2.kw = S.kw /\ S2.used = S.used)
@@ -367,16 +385,16 @@ J_C06(S, a, site, inp, S2, o, G, G2) ==
                  THEN <<V("C06", "violation", "", "the victim is not a key of lowest estimated frequency in the sample")>> ELSE <<>>)
                 \o (IF f[4] < f[2] /\ o.next # "W_Recv"
                     THEN <<V("C06", "violation", "", "a victim hotter than the incoming key was evicted")>> ELSE <<>>)
-                \o (IF f[4] >= f[2] /\ f[5] < L.w /\ o.next = "W_Recv"
+                \o (IF f[4] >= f[2] /\ f[5] < G.adm.w /\ o.next = "W_Recv"
                     THEN <<V("C06", "violation", "", "the put was rejected although the victim was not hotter than the incoming key")>> ELSE <<>>)
-                \o (IF f[5] >= L.w
+                \o (IF f[5] >= G.adm.w
                     THEN <<V("C06", "violation", "", "eviction continued although enough space was available")>> ELSE <<>>)
         ELSE <<>>)
     \* the frequencies the decision uses are the keys' estimated access frequencies (o.truth: what the sketch says)
     \o (IF \E i \in DOMAIN o.ev : o.ev[i].e \in {"sample", "refill"} /\
               \E t \in EvTriples(o.ev[i].f, 3) :
                  \* (entries kept from an earlier step carry the estimate they were sampled with)
-                 /\ (o.ev[i].e = "sample" \/ ~\E x \in L.sample : x.id = t.id)
+                 /\ (o.ev[i].e = "sample" \/ t.id \notin G.smp)
                  /\ \E j \in DOMAIN o.truth : o.truth[j][1] = t.id /\ o.truth[j][2] # t.est
         THEN <<V("C06", "violation", "", "a sampled key is ranked by a frequency that is not its estimated access frequency")>> ELSE <<>>)
     \o (IF \E i \in DOMAIN o.ev : o.ev[i].e = "sample" /\
@@ -384,10 +402,10 @@ J_C06(S, a, site, inp, S2, o, G, G2) ==
         THEN <<V("C06", "violation", "", "the incoming key is ranked by a frequency that is not its estimated access frequency")>> ELSE <<>>)
     \* the final decision
     \o (IF site \in {"A_Sample", "K_DelKw", "K_DelUsed"} /\ L.mode \in {"", "evict"} /\ L.cmd.kind \in {"put", "putttl"}
-           /\ o.next = "K_AddKw" /\ S2.cfg.max - S2.used < L.w
+           /\ o.next = "K_AddKw" /\ S2.cfg.max - S2.used < G.adm.w
         THEN <<V("C06", "violation", "", "the put was accepted although not enough space resulted")>> ELSE <<>>)
     \o (IF site \in {"A_Sample", "K_DelKw", "K_DelUsed"} /\ L.mode \in {"", "evict"} /\ L.cmd.kind \in {"put", "putttl"}
-           /\ o.next = "W_Recv" /\ S2.cfg.max - S2.used >= L.w
+           /\ o.next = "W_Recv" /\ S2.cfg.max - S2.used >= G.adm.w
         THEN <<V("C06", "violation", "", "the put was rejected although enough space resulted")>> ELSE <<>>)
 
 -----------------------------------------------------------------------------
@@ -403,23 +421,23 @@ RejExistsVerdict(S, k) ==
 J_C07(S, a, site, inp, S2, o, G, G2) ==
   LET L == S.lc[a] IN
   CASE site = "C_PutCheck" /\ IsCaller(a) ->
-         LET k == L.op.k
+         LET k == o.op.k
              rejected == o.next = "C_Idle" /\ o.ret.st = StRejExists
          IN (IF rejected THEN RejExistsVerdict(S, k) ELSE <<>>)
             \o (IF Readable(S, k) /\ ~rejected
                 THEN <<V("C07", "violation", "", "put of a readable key was not rejected on the spot")>> ELSE <<>>)
             \o (IF Readable(S, k) /\ (S2.store # S.store \/ S2.kw # S.kw \/ S2.used # S.used \/ S2.ttl # S.ttl)
                 THEN <<V("C07", "violation", "", "put of a readable key changed the cache")>> ELSE <<>>)
-    [] site = "W_PutCheck" /\ a = "worker" ->
+    [] site = "W_PutCheck" /\ a = "worker" /\ Sync(G, a, site, o) ->
          LET k == L.key
              rejected == o.next = "W_Recv" /\ L.cmd.ack \in DOMAIN S2.ack /\ S2.ack[L.cmd.ack].st = StRejExists
          IN (IF rejected THEN RejExistsVerdict(S, k) ELSE <<>>)
             \o (IF Readable(S, k) /\ ~rejected
                 THEN <<V("C07", "violation", "", "a queued put of a readable key was not rejected with KeyAlreadyExists")>> ELSE <<>>)
-    [] a = "worker" /\ L.cmd.kind \in {"put", "putttl"} /\ site \notin {"W_PutCheck", "W_Recv"}
+    [] a = "worker" /\ Sync(G, a, site, o) /\ L.cmd.kind \in {"put", "putttl"} /\ site \notin {"W_PutCheck", "W_Recv"}
        /\ o.next = "W_Recv" /\ L.cmd.ack \in DOMAIN S2.ack /\ S2.ack[L.cmd.ack].st = StRejExists ->
          <<V("C07", "violation", "", "KeyAlreadyExists decided outside the existence check")>>
-    [] site = "W_StorePut" /\ a = "worker" /\ Readable(S, L.cmd.key) ->
+    [] site = "W_StorePut" /\ a = "worker" /\ Sync(G, a, site, o) /\ Readable(S, L.cmd.key) ->
          <<V("C07", "violation", "", "a put overwrote a readable key")>>
     [] OTHER -> <<>>
 
@@ -427,7 +445,7 @@ J_C07(S, a, site, inp, S2, o, G, G2) ==
 (* C08: put_or_update changes exactly what was requested, or acts as put *)
 
 J_C08(S, a, site, inp, S2, o, G, G2) ==
-  LET L == S.lc[a] op == L.op k == op.k IN
+  LET L == S.lc[a] op == IF IsCaller(a) THEN o.op ELSE L.op k == op.k IN
   CASE site = "C_PouUpdate" /\ IsCaller(a) ->
          IF Readable(S, k)
          THEN LET e == S.store[k]
@@ -450,7 +468,7 @@ J_C08(S, a, site, inp, S2, o, G, G2) ==
               IF o.ret.panic THEN (IF HasV(op) THEN <<V("C08", "violation", "", "well-formed upsert of an absent key panicked")>> ELSE <<>>)
               ELSE IF o.next # "C_Send" THEN <<V("C08", "violation", "", "upsert of an absent key did not queue a put")>>
               ELSE LET c == S2.lc[a].cmd IN <<>>
-    [] site = "C_Send" /\ IsCaller(a) /\ op.op = "pou" /\ \E i \in DOMAIN o.ev : o.ev[i].e = "send" ->
+    [] site = "C_Send" /\ IsCaller(a) /\ Sync(G, a, site, o) /\ op.op = "pou" /\ \E i \in DOMAIN o.ev : o.ev[i].e = "send" ->
          \* the command that was queued: [ack, kind, id, weight, ttl secs, ttl nanos, ok]
          LET f == o.ev[CHOOSE i \in DOMAIN o.ev : o.ev[i].e = "send"].f
              isPut == L.cmd.kind \in {"put", "putttl"}
@@ -463,7 +481,7 @@ J_C08(S, a, site, inp, S2, o, G, G2) ==
                   THEN <<V("C08", "violation", "", "the explicitly requested weight was not sent to the worker")>> ELSE <<>>)
     [] site = "C_PouWeightOf" /\ IsCaller(a) /\ HasW(op) /\ o.next = "C_Idle" /\ ~o.ret.panic ->
          <<V("C08", "violation", "", "an explicitly requested weight was dropped")>>
-    [] site = "K_Update" /\ a = "worker" /\ L.id \in DOMAIN S.kw /\ (L.id \notin DOMAIN S2.kw \/ S2.kw[L.id].w # L.w) ->
+    [] site = "K_Update" /\ a = "worker" /\ Sync(G, a, site, o) /\ L.id \in DOMAIN S.kw /\ (L.id \notin DOMAIN S2.kw \/ S2.kw[L.id].w # L.w) ->
          <<V("C08", "violation", "", "the acknowledged weight update is not the key's charged weight")>>
     [] OTHER -> <<>>
 
@@ -483,7 +501,7 @@ J_C09(S, a, site, inp, S2, o, G, G2) ==
                 THEN <<V("C09", "violation", "", "a read hid a value whose time to live had not elapsed")>> ELSE <<>>)
             \o (IF \E i \in I : vals[i] = NoVal /\ facts[i].present /\ ~facts[i].soft /\ ~facts[i].shut /\ facts[i].exp = NoExp
                 THEN <<V("C09", "violation", "", "a read hid a key that has no time to live")>> ELSE <<>>)
-    [] site = "W_StorePut" /\ a = "worker" /\ Present(S2, L.cmd.key) /\ S2.store[L.cmd.key].id = L.cmd.id ->
+    [] site = "W_StorePut" /\ a = "worker" /\ Sync(G, a, site, o) /\ Present(S2, L.cmd.key) /\ S2.store[L.cmd.key].id = L.cmd.id ->
          LET e2 == S2.store[L.cmd.key] IN
          IF L.cmd.kind = "putttl" /\ L.cmd.ttl < 1000000 /\ e2.exp # S.now + L.cmd.ttl
          THEN <<V("C09", "violation", "", "put with time to live stored a wrong deadline")>>
@@ -496,18 +514,26 @@ J_C09(S, a, site, inp, S2, o, G, G2) ==
 (* C10: the sweeper removes exactly the expired keys *)
 
 J_C10(S, a, site, inp, S2, o, G, G2) ==
-  IF a # "sweeper" THEN <<>>
+  IF a # "sweeper" \/ ~Sync(G, a, site, o) THEN <<>>
   ELSE LET L == S.lc[a] IN
   CASE site = "K_DelUsed" /\ Present(S, L.key) /\ ~Present(S2, L.key) ->
          LET e == S.store[L.key] IN
+         LET x3 == Get(G.e3, L.key, [mode |-> "none", val |-> NoVal, dl |-> NoExp, src |-> "none"])
+             \* the same wrongful removal seen from C09 (hidden by "expiry" before the deadline) and C08 (an accepted upsert is lost)
+             More(kind, finding) ==
+               (IF ~e.soft THEN <<V("C09", kind, finding, "the sweeper expired a key whose deadline had not passed: reads no longer return it")>> ELSE <<>>)
+               \o (IF ~e.soft /\ x3.mode = "val" /\ x3.src = "pou" /\ x3.val = e.val
+                   THEN <<V("C08", kind, finding, "an upsert acknowledged as accepted was silently lost (swept before its deadline)")>> ELSE <<>>)
+         IN
          IF e.id # L.vic.id
          THEN <<V("C10", "known", "D11", "the sweep of an old key id removed the key's newer incarnation")>>
          ELSE IF e.exp = NoExp \/ e.exp > L.t
          THEN IF UpsertInFlightOn(S, e.id)
-              THEN <<V("C10", "known", "D12", "sweep between an upsert's store update and its index update")>>
+              THEN <<V("C10", "known", "D12", "sweep between an upsert's store update and its index update")>> \o More("known", "D12")
               ELSE IF e.id \in DOMAIN G.stale
               THEN <<V("C10", "known", G.stale[e.id], "the expiry index was written with an expiry the entry did not have (an upsert of the key ran in between)")>>
-              ELSE <<V("C10", "violation", "", "a sweep removed a key without time to live or whose expiry lies in the future")>>
+                   \o More("known", G.stale[e.id])
+              ELSE <<V("C10", "violation", "", "a sweep removed a key without time to live or whose expiry lies in the future")>> \o More("violation", "")
          ELSE <<>>
     [] o.next = "S_Done" /\ site \in {"S_Sweep", "K_DelKw", "K_DelUsed"} ->
          LET sh == IF site = "S_Sweep" THEN L.shard ELSE L.shard
@@ -556,7 +582,7 @@ J_C11(S, a, site, inp, S2, o, G, G2) ==
       THEN <<V("C11", "violation", "", "a value written before an acknowledged delete of its key is in the cache after it (delete dropped or applied out of order)")>> ELSE <<>>)
   \o (IF Quiescent(S2) /\ ~S2.shut /\ ~G.shutSeen /\ G2.dead = {} /\ G2.ops = EmptyFn /\ \E k \in G2.absent : Present(S2, k)
       THEN <<V("C11", "violation", "", "put followed by delete of the same key (same thread) left the key present at quiescence")>> ELSE <<>>)
-  \o (IF a = "worker" /\ S.lc[a].cmd.kind = "del" /\ o.next = "W_Recv" /\ site # "W_Recv"
+  \o (IF a = "worker" /\ Sync(G, a, site, o) /\ S.lc[a].cmd.kind = "del" /\ o.next = "W_Recv" /\ site # "W_Recv"
          /\ S.lc[a].cmd.ack \in DOMAIN G.ackop /\ G.ackop[S.lc[a].cmd.ack] \in DOMAIN G.ops
          /\ G.ops[G.ackop[S.lc[a].cmd.ack]].pd /\ Present(S2, S.lc[a].cmd.key) /\ ~S2.shut
       THEN <<V("C11", "violation", "", "put followed by delete of the same key left the key present")>> ELSE <<>>)
